@@ -487,7 +487,7 @@ pub fn run<P: Property>(opts: &RunOpts) -> i32 {
                     failure_persistence: None,
                     max_shrink_iters: 4096,
                     max_global_rejects: (per_shard as u32).saturating_mul(20).saturating_add(65536),
-                    max_local_rejects: 1_000_000,
+                    max_local_rejects: (per_shard as u32).saturating_mul(64).saturating_add(1_000_000),
                     verbose: 0,
                     ..Config::default()
                 };
@@ -639,6 +639,11 @@ pub fn run<P: Property>(opts: &RunOpts) -> i32 {
         "excluded_known": total.excluded_known,
         "excluded_known_samples": total.known_samples,
         "starved": starved,
+        "generator_layer": {
+            "built": crate::gen::GEN_ACCEPT.load(std::sync::atomic::Ordering::Relaxed),
+            "refused": crate::gen::GEN_REJECT.load(std::sync::atomic::Ordering::Relaxed),
+            "note": "draws of the board/scene builders that produced a model geometry vs. draws they refused (trace not simple, out of the exact oracle's domain); refused draws are redrawn by proptest and are not cases"
+        },
         "aborted_shards": aborted,
         "exhaustive": false,
     });
